@@ -99,7 +99,7 @@ static int run_sc() {
       else if (line[0] == 'K') { c->poll(); }
       else if (line[0] == 'T') { sscanf(line, "T %63s", a); c->setNow((acetime_t) parse_v(a)); }
       out += "[" + num(c->epoch()) + "," + num(c->prev()) + "," + (c->isInit() ? "1" : "0") + "," + num(c->last()) + ","
-          + num(backup->sets) + "," + num(backup->lastSet) + "," + (isget ? num(reading) : std::string("null")) + "],";
+          + num(backup->sets) + "," + num(backup->lastSet) + "," + (isget ? num(reading) : std::string("null")) + "," + num(backup->requests) + "],";   // (a backup clock is written to, never asked for the time)
     }
   }
   return 0;
